@@ -307,19 +307,20 @@ PROPS['C08'] = {
 }
 PROPS['C07']['units'].append('errgate')
 PROPS['C14'] = {
-    'units': ['imports', 'write'],
+    'units': ['imports', 'impwrite', 'write'],
     'title': 'imports of a generated module are sound and complete w.r.t. what the other modules define; one module per crate (import-table kernel)',
     'technique': 'Verus contract on core/src/language/mod.rs::used_imports (the loop verbatim; the `.filter(P)` of the loop source as `if P`, P kept from '
                  'the source; the closure `fallback` lifted into a function with its captured variables as parameters, T11) over stub containers with the '
-                 'std lookups specified; plus the module-per-crate clause of cli/src/writer.rs::write_multiple_files (unit write)',
+                 'std lookups specified; TypeScript::write_imports and Kotlin::write_imports over a ghost text sink (write! sites through literal-generated contracts); '
+                 'plus the module-per-crate clause of cli/src/writer.rs::write_multiple_files (unit write)',
     'level_text': 'For every set of references collected from a crate (any order of the hash set), every table of the types the generated modules define '
                   'and every current crate: the import table used_imports returns names, under a module, only types that module defines and never the '
                   'current crate itself (soundness, including the re-export heuristic); and for every reference (crate c, name n) with c another '
                   'crate that has a generated module: the named type is imported from c when c defines it, and all of c\'s types when the reference is a '
-                  'glob (completeness). write_multiple_files: each crate\'s module file holds exactly what was generated from that crate\'s data.',
+                  'glob (completeness). write_imports (TypeScript, Kotlin): the text written is one statement per entry of the table (Kotlin: per name), in the '
+                  'table\'s order, naming exactly the entry\'s module and exactly its names, then an empty line. write_multiple_files: each crate\'s module file holds exactly what was generated from that crate\'s data.',
     'level_note': 'Kernel: the import TABLE. That the references / the per-crate type sets are what the sources say (syn UseTree and path walks, '
-                  'CrateName::find_crate_name over Path components), that the table is WRITTEN as import statements (TypeScript / Kotlin write_imports: '
-                  'text), the file names (output_file_name: format! in closures) and that the definitions equal single-file output are NOT proved: '
+                  'CrateName::find_crate_name over Path components), that the statements are valid import syntax, the file names (output_file_name: format! in closures) and that the definitions equal single-file output are NOT proved: '
                   'bounded stand-in cli_multifile on the real binary. Assumed: the entry-API statements record the pair(s) and change nothing else; '
                   'the re-export search answers only (k, t) with t defined by k, named as the reference, k not the current crate (outlined iterator '
                   'chain); HashSet / HashMap lookups as documented. Known finding carved out by input: Go writes a cross-crate struct payload of a '
@@ -328,6 +329,7 @@ PROPS['C14'] = {
     'bounded': ['cli_multifile'],
 }
 PROPS['C07']['units'].append('imports')
+PROPS['C07']['units'].append('impwrite')
 PROPS['C19'] = {
     'units': ['annot'],
     'title': 'the typeshare attribute macro removes exactly the typeshare attributes and leaves everything else of the item alone (macro kernel)',
